@@ -4,6 +4,7 @@ From Coq Require Import ZArith List Bool Ring.
 From Coq Require Import PrimFloat.
 From PV Require Import Model.Base Model.Sched Model.Seq.
 From PV Require Gen.Pure Gen.PureSlot Model.Chan Proofs.PureEq Proofs.PureSlotEq.
+From PV Require Proofs.SourceTie.
 From PV Require Import Proofs.SchedInv Proofs.SeqInv Proofs.PhaseSpec.
 Import ListNotations.
 Open Scope Z_scope.
@@ -124,3 +125,10 @@ Theorem C07_source_make_next_pulse_slot :
              (negb (negb (proto =? 1))) (proto =? 2) dp (p_phase p) (p_dur p) (en_max e) block)).
 Proof. exact PureSlotEq.make_next_pulse_slot_eq. Qed.
 Print Assumptions C07_source_make_next_pulse_slot.
+
+(** The whole translation tie of the scheduler (see Proofs/SourceTie.v): every
+    scheduler function of the model this property's theorems rest on is equal to
+    the function regenerated from the current source. *)
+Theorem C07_source_scheduler : SourceTie.scheduler_tied.
+Proof. exact SourceTie.scheduler_source_tie. Qed.
+Print Assumptions C07_source_scheduler.
